@@ -285,7 +285,8 @@ def c08(ctx):
       'WINIT: every public entry point runs the once-initialiser before any registry access, the initialiser is a blocking once primitive, and the built-in fillers are reachable only from its closure '
       '(a hand-rolled flag set before the tables are filled moves the fillers out of a once-closure and is caught): no thread observes a partially initialised table. '
       'LOCK-b: at every call site with a live guard no lock acquisition is reachable and the once-closure never re-enters its owner: the held->acquired graph is ONCE -> REGISTRY only, acyclic: no deadlock among engine locks under any schedule. '
-      'LOCK-c: no engine panic site inside a guard-live region (no poisoning => lock().unwrap() cannot panic).',
+      'LOCK-c: no engine panic site inside a guard-live region (no poisoning => lock().unwrap() cannot panic). '
+      'REG-RECORD: one decision, one acquisition — no body reads two parts of the record registered under one name in separate lock acquisitions (type and handler of an infix operator), and none checks a name and then writes it in a second acquisition (check-then-act).',
       not_decided='that each call\'s result equals that of some sequential order for arbitrary interleavings (linearizability of results is a property of histories); SNAP (one registry snapshot per node) is not claimed',
       assumptions=COMMON_ASSUME)
 def c13(ctx):
@@ -349,8 +350,9 @@ def c17(ctx):
       'HTYPED: in each of the built-in handler closures (found by role: closures escaping into a handler dyn Fn type) every Value-typed operand is consumed only through a type gate — a TACC accessor whose result is ?-propagated, '
       'a variant match whose non-selected arms all reach an Err return, Value equality, or the unchanged return value; Display / to_string / float() / an untyped helper on an operand is a violation. '
       'TACC + HTYPED => a wrongly typed operand yields an error, never a coerced value. '
-      'TOP: inside the grouped closures the arm selected by a string literal performs the operation the language assigns to that literal on (left, right) in that order, and the arm literals equal the literals the closure is registered under.',
-      not_decided='the numeric / boolean / string results themselves (values); aggregates (AND OR in min max sum mul) are loops whose results are not decided',
+      'TOP: inside the grouped closures the arm selected by a string literal performs the operation the language assigns to that literal on (left, right) in that order, and the arm literals equal the literals the closure is registered under. '
+      'AGGR: min / max / sum / mul leave their argument loop towards Ok only when every argument was looked at, fold in the documented direction from the documented neutral element, and AND / OR over an empty list yield their neutral element (true / false). ',
+      not_decided='the numeric / boolean / string results themselves (values); of the aggregates (AND OR in min max sum mul) only the loop shape, fold direction and neutral elements are decided',
       assumptions=COMMON_ASSUME)
 def c03(ctx):
     prog = ctx.prog
@@ -367,6 +369,7 @@ def c03(ctx):
         obs.append(bad('TOP', 'TOP|eval|%s' % fb.name, w, c.where(), body=fb.name))
     obs += r_top.with_views(prog, r_top.rule_top, rows)
     obs += r_top.with_views(prog, r_top.rule_aggr, rows)
+    obs += r_top.with_views(prog, r_top.rule_aggr_empty, rows)
     obs += r_top.with_views(prog, r_top.rule_unary, rows)
     obs += r_top.with_views(prog, r_top.rule_fold, rows)
     # conditional selection: the value of `c ? a : b` is that of the selected branch *and only that branch runs*
